@@ -232,6 +232,8 @@ pub fn make_world(core: &mut Core, cfg: &Config, seed: u64) -> RtWorld {
         requests_seen: 0,
         vcp_request_seq: None,
         first_delivery_frontier: None,
+        max_requests: if cfg.cap_virtual_s > 100 * 3600 { 600_000 } else { 40_000 },
+        request_budget_exceeded: false,
     };
     // generation 0: k0 chunks already visible, stamped in the recent past
     let step = [4_000i64, 7_000, 11_000][(seed % 3) as usize];
@@ -381,6 +383,15 @@ pub fn judge(ctx: &mut Ctx, w: &mut RtWorld, cfg: &Config, outcome: &Outcome, re
                 ctx.count("joined_next_volume_late");
             }
         }
+    }
+    // ---- runaway guard: a session never needs this many requests for the deliveries it made
+    if w.request_budget_exceeded {
+        ctx.violate(
+            "bounded-requests",
+            "runaway".into(),
+            format!("the session issued more than {} requests ({} deliveries in {} virtual ms) without returning: polling runs away without waiting", w.max_requests, n, returned_at_ms),
+        );
+        return;
     }
     // ---- clause 4: return value
     let after_stop = w.deliveries.iter().filter(|d| d.after_stop).count();
